@@ -370,15 +370,20 @@ func init() {
 				}
 			}
 			bs := p.strBytes(s)
-			p.requireASCII(bs, "strings.TrimSpace")
+			// like the library, only the bytes at the two scan frontiers are looked
+			// at; a non-ASCII byte there (Unicode white space) is outside the bound
 			lo, hi := 0, len(bs)
+			edge := func(b *Term) bool {
+				p.requireASCII([]*Term{b}, "strings.TrimSpace")
+				return p.branch(p.isSpaceByte(b), "trim")
+			}
 			if left {
-				for lo < hi && p.branch(p.isSpaceByte(bs[lo]), "trim") {
+				for lo < hi && edge(bs[lo]) {
 					lo++
 				}
 			}
 			if right {
-				for hi > lo && p.branch(p.isSpaceByte(bs[hi-1]), "trim") {
+				for hi > lo && edge(bs[hi-1]) {
 					hi--
 				}
 			}
@@ -389,12 +394,15 @@ func init() {
 	models["bytes.TrimSpace"] = func(p *Path, c *frame, pos token.Pos, fn *ssa.Function, a []Value) Value {
 		sl, _ := a[0].([]Value)
 		bs := bytesOf(p, sl)
-		p.requireASCII(bs, "bytes.TrimSpace")
 		lo, hi := 0, len(bs)
-		for lo < hi && p.branch(p.isSpaceByte(bs[lo]), "trim") {
+		edge := func(b *Term) bool {
+			p.requireASCII([]*Term{b}, "bytes.TrimSpace")
+			return p.branch(p.isSpaceByte(b), "trim")
+		}
+		for lo < hi && edge(bs[lo]) {
 			lo++
 		}
-		for hi > lo && p.branch(p.isSpaceByte(bs[hi-1]), "trim") {
+		for hi > lo && edge(bs[hi-1]) {
 			hi--
 		}
 		if lo == hi {
